@@ -208,6 +208,12 @@ static int _yr_arena_allocate_memory(
     b->data = new_data;
   }
 
+  // The unused part of the buffer is zeroed only when the buffer is resized
+  // for a zeroed allocation. If it was resized for a non-zeroed one the spare
+  // space still holds whatever the allocator returned.
+  if (flags & YR_ARENA_ZERO_MEMORY)
+    memset(b->data + b->used, 0, size);
+
   if (ref != NULL)
   {
     ref->buffer_id = buffer_id;
